@@ -250,6 +250,6 @@ def execute(case, ctx):
 
 MANIFEST = {
     "technique": "property-based testing (Hypothesis) with a differential oracle (independent evaluation of the time-ordered integral) and a table-vs-on-demand round trip",
-    "text": "Seeded random search over small models (full ED in numpy), index quadruples and resonance-forcing Matsubara triples; on-demand values are compared with an independent evaluation of the defining integral, and frequency tables (with and without term purge, default and empty lists) with on-demand values. Exploration only (N<=4 quick / 5 thorough).",
+    "text": "Seeded random search over small models (full ED in numpy), index quadruples and resonance-forcing Matsubara triples; on-demand values are compared with an independent evaluation of the defining integral, and frequency tables (with and without term purge, default and empty lists) with on-demand values; operator()(z1,z2,z3) at Matsubara frequencies shifted by real amounts and at generic complex triples is compared with the same Lehmann sum continued to those z. Model families include parameters over many decades (U up to 1e4, level splittings down to 1e-6). Exploration only (N<=4 quick / 5 thorough).",
     "note": "Trusted: numpy, the divided-difference evaluation in pbt/oracle.py (validated against the unchanged tree to 1e-11 of scale), the runner.",
 }
